@@ -24,6 +24,20 @@ META = {
 MAXID = 2147483647
 
 
+def _xpath(expected, result):
+    """ghost for BaseOxmlElement.xpath: the assumed contract belongs to one whitelisted expression; any other
+    expression has no contract (the function is then outside the subset and its bounded stand-in runs)."""
+    from pyvc.engine import Unsupported
+
+    def h(it, a, k):
+        if a and a[0] == expected:
+            it.path.assumed.add("xpath(%r) returns the values of exactly those attributes, in document order" % expected)
+            return result
+        raise Unsupported("xpath expression %r has no assumed contract (contract written for %r)" % (a[0] if a else None, expected))
+
+    return GhostFn(h, "xpath")
+
+
 # --------------------------------------------------------------------------------------------
 # slide ids
 
@@ -68,7 +82,7 @@ def _next_slide_id(c):
     c.requires(z3.ForAll([i], z3.Implies(z3.And(0 <= i, i < n), ID(i) >= 0)))
     c.requires(z3.ForAll([i, k], z3.Implies(z3.And(0 <= i, i < k, k < n), ID(i) != ID(k))))
     ids = SSeq(n, lambda j: SStr([FmtInt(ID(j))]), name="sldId/@id")
-    lst = SObj(CT_SlideIdList, "sldIdLst", xpath=GhostFn(lambda it, a, kw: ids))
+    lst = SObj(CT_SlideIdList, "sldIdLst", xpath=_xpath("./p:sldId/@id", ids))
     out = c.run(CT_SlideIdList._next_id.fget, lst)
     if out.raised:
         c.fails("never_raises", "_next_id raised %s" % out.exc)
@@ -115,6 +129,16 @@ def _replay_shape_ids(kind):
             if all(isinstance(x, str) for x in ids):
                 cands.append(ids)
         cands += [["1", "²"], ["1", "2", "4"], ["1", "x", "7"], ["1"], ["1", "2147483647"], ["1", "٣"], ["1", "3", "3"]]
+        # ids that sit on other elements than p:cNvPr (XML ids have document scope: a:cNvPr of a locked canvas, p:cTn ...)
+        xml = ('<p:spTree %s><p:nvGrpSpPr><p:cNvPr id="1" name=""/><p:cNvGrpSpPr/><p:nvPr/></p:nvGrpSpPr><p:grpSpPr/>'
+               '<p:sp><p:nvSpPr><p:cNvPr id="2" name="s"/><p:cNvSpPr/><p:nvPr/></p:nvSpPr><p:spPr/></p:sp>'
+               '<p:graphicFrame><p:nvGraphicFramePr><p:cNvPr id="3" name="g"/><p:cNvGraphicFramePr/><p:nvPr/></p:nvGraphicFramePr>'
+               '<p:xfrm/><a:graphic><a:graphicData uri="x"><a:cNvPr id="4" name="inner"/><a:cNvPr id="9" name="inner2"/></a:graphicData></a:graphic></p:graphicFrame>'
+               '</p:spTree>' % nsdecls("p", "a"))
+        spTree = parse_xml(xml)
+        got = spTree.max_shape_id if kind == "max" else spTree._next_shape_id
+        if (kind == "max" and got != 9) or (kind == "next" and got in (1, 2, 3, 4, 9)):
+            return {"confirmed": True, "witness_class": "id-scope", "detail": "part with ids 1,2,3 on p:cNvPr and 4,9 on a:cNvPr: %s = %r" % ("max_shape_id" if kind == "max" else "_next_shape_id", got)}
         for ids in cands:
             sps = "".join('<p:sp><p:nvSpPr><p:cNvPr id="%s" name="s"/><p:cNvSpPr/><p:nvPr/></p:nvSpPr><p:spPr/></p:sp>' % v.replace('"', "")
                           for v in ids[1:])
@@ -146,7 +170,7 @@ def _max_shape_id(c):
     from pptx.oxml.shapes.groupshape import CT_GroupShape
 
     n, IDS, seq = _id_population(c)
-    e = SObj(CT_GroupShape, "spTree", xpath=GhostFn(lambda it, a, k: seq))
+    e = SObj(CT_GroupShape, "spTree", xpath=_xpath("//@id", seq))
     out = c.run(CT_GroupShape.max_shape_id.fget, e)
     if out.raised:
         c.fails("never_raises", "max_shape_id raised %s" % out.exc)
@@ -166,7 +190,7 @@ def _next_shape_id_elm(c):
     from pptx.oxml.shapes.groupshape import CT_GroupShape
 
     n, IDS, seq = _id_population(c)
-    e = SObj(CT_GroupShape, "spTree", xpath=GhostFn(lambda it, a, k: seq))
+    e = SObj(CT_GroupShape, "spTree", xpath=_xpath("//@id", seq))
     qn = "pptx.oxml.shapes.groupshape:CT_GroupShape._next_shape_id"
     used = {}
 
@@ -605,7 +629,7 @@ def _next_ctn(c):
     c.requires(n >= 1)
     ID = z3.Function("CTN", z3.IntSort(), z3.IntSort())
     ids = SSeq(n, lambda j: SStr([FmtInt(ID(j))]), name="cTn/@id")
-    e = SObj(CT_TimeNodeList, "childTnLst", xpath=GhostFn(lambda it, a, k: ids))
+    e = SObj(CT_TimeNodeList, "childTnLst", xpath=_xpath("/p:sld/p:timing//p:cTn/@id", ids))
     out = c.run(CT_TimeNodeList._next_cTn_id.fget, e)
     if out.raised:
         c.fails("never_raises", "raised %s" % out.exc)
@@ -643,7 +667,7 @@ def _next_ph_name(c):
     from pptx.shapes.shapetree import _BaseShapes
 
     names = _GhostNames()
-    spTree = SObj(None, "spTree", xpath=GhostFn(lambda it, a, k: names))
+    spTree = SObj(None, "spTree", xpath=_xpath("//p:cNvPr/@name", names))
     shapes = SObj(_BaseShapes, "shapes", _spTree=spTree)
     vert = c.bool("vertical")
     orient = "vert" if c.branch(vert) else "horz"
